@@ -282,6 +282,8 @@ func runLayouts(w *fw.Worker, id string) {
 			{"bad%d.evy", "x:=1\nprint   x\n"},
 			{"good%d.txtar", "-- a.evy --\nx := 1\nprint x\n-- note.txt --\nkeep   me\n"},
 			{"bad%d.txtar", "-- a.evy --\nx := 1\nprint x\n-- b.evy --\ny:=2\nprint y\n"},
+			{"good-two%d.txtar", "-- a.evy --\nx := 1\nprint x\n-- b.evy --\ny := 2\nprint y\n"},
+			{"bad-first%d.txtar", "-- a.evy --\nx:=1\nprint x\n-- b.evy --\ny := 2\nprint y\n"}, // the LAST member is formatted, an earlier one is not
 		}
 		var seq func(prefix []int)
 		seq = func(prefix []int) {
